@@ -27,21 +27,38 @@ The input class is computed *before* the call from the raw XML / the object stat
   ragged   a column operation on a table having a row narrower than the declared columns
   cached   the table's row cache (`_indexes["_tmap"]`) is populated when the call is made
 so that a known defect confined to one class does not mask the same operation on the other classes.
+A history is blamed on the last operation of its shortest failing prefix; without interleaved reads the prefixes are
+replayed on instances of their own so that the history itself stays free of reads (the checks are reads and would
+populate the caches).  Histories of length 2 read the first and last column only (all rows, all single values).
+`<kind>-initial` = the initial table itself fails the check; `no-crash` = an exception escaped the harness.
+At most B_TABLES_MAXFAIL (default 5) failure records are emitted per contract and label; further occurrences of the
+same label are only noted in NativeResult.outcome (the known defects fail on thousands of histories).
 
 Genuine defects of the pinned tree are listed in FINDINGS (one entry per root cause, smallest history, witness).
 
-Self-test (tools/mutrun.py; every mutant is flagged by labels that do NOT fail on the unchanged tree) --
+Self-test with tools/mutrun.py (whole module run against a scratch tree with one edit).  Every mutant below is
+flagged by labels that pass on the unchanged tree (number of such new labels in brackets); none of those tried
+was missed.
 kills:
-  element_cached.py  `odf_idx = bisect_left(cache_map, position)` -> bisect_right      (history<=1: grid-*/fresh-* of nearly every operation)
-  element_cached.py  delete_item_in_vault map update `[(x - 1) for x in vault_map[odf_idx:]]` -> `x`   (grid-delete_row, grid-delete_cell, grid-delete_column, ...)
-  table.py           `self._update_width(row_back)` removed in set_row                  (xml-set_row*, grid-set_row*, grid-rset_*, ...)
-  table.py           insert_row `if diff < 0:` -> `if diff <= 0:`                       (grid-insert_row: raises at the edge)
-  row.py             `self._compute_row_cache()` dropped in extend_cells                (grid-set_values / grid-rset_values, transform: transpose-once)
-  row.py             `clone._rmap = self._rmap[:]` -> `self._rmap`                      (clone: indep-Row.clone; history: grid-rappend_cell*)
-  row.py             `cell = cell.clone` removed in Row.traverse (first branch)         (getters: detached-Row.traverse / detached-Row.cells / detached-cells ...)
-  also tried: table.py `clone: bool = True` -> False in get_row (getters: detached-get_row), cell.py `repeated < 2` -> `< 1`
-  (xml-*: repeat attribute "1"), row.py `break` removed in Row.rstrip (transform: rstrip-keeps-values),
-  table.py `diff = -repeated` -> `diff = repeated` in rstrip (transform: xml-after-rstrip).
+  element_cached.py  find_odf_idx: bisect_left -> bisect_right (import aliased)                [79: grid-/fresh- of nearly every operation]
+  element_cached.py  delete_item_in_vault map update `(x - 1) for x in vault_map[odf_idx:]` -> `x`   [31: grid-/fresh-/xml-delete_row, delete_cell, delete_column ...]
+  element_cached.py  set_item_in_vault: `target_idx += 1` dropped                              [52: grid-set_value(-rowrun), set_cell, insert_cell ...]
+  element_cached.py  set_item_in_vault: `repeated_after = current_repeated - repeated_before` (no `- repeated`)   [64]
+  element_cached.py  set_item_in_vault: `vault._indexes[vault_map_name] = {}` dropped          [118: grid-/fresh-insert_cell, append_cell, rappend_cell ...]
+  table.py           set_row: `self._update_width(row_back)` removed                           [74: grid-/xml-set_row, rappend_cell, rinsert_cell, rset_cell, rset_values ...]
+  table.py           insert_row: `if diff < 0:` -> `if diff <= 0:`                             [4: grid-insert_row (raises at the edge), clone: equal-Table.clone]
+  table.py           insert_row: `self._update_width(row_back)` removed                        [7: grid-/xml-insert_row]
+  table.py           append_row: column initialisation appended instead of `position=0`        [30: xml-* 'a column declaration follows a row']
+  table.py           get_row: default `clone=True` -> False                                    [29: grid-rset_cell-rowrun, rappend_cell-rowrun ..., getters: detached-get_row]
+  table.py           rstrip: `diff = -repeated` -> `diff = repeated`                           [2: transform rstrip(-aggressive)-only-empty (column declarations)]
+  table.py           set_span: first covered cell not retagged (`cells[0][2:]`)                [1: transform span-covers-area]
+  table.py           optimize_width: `_optimize_width_rstrip_rows(width)` removed              [1: transform coherent-after-optimize_width]
+  row.py             extend_cells: `self._compute_row_cache()` dropped                         [9: grid-/xml-set_values, rset_values; transform transpose-once, coherent-after-transpose, coherent-after-set_span]
+  row.py             clone: `clone._rmap = self._rmap[:]` -> `self._rmap`                      [5: clone indep-Row.clone; getters detached-get_row; grid-set_column_cells]
+  row.py             traverse (no range): `cell = cell.clone` removed                          [85: history grid-/fresh- of most operations; getters detached-Row.traverse, detached-Row.cells, detached-cells, detached-get_cells ...]
+  row.py             traverse (range): `cell.x = x` after `x += 1`                             [3: getters coords-Row.traverse-range, coords-Row.get_cells-range, coords-get_cells-area]
+  row.py             rstrip: `break` -> `continue`                                             [2: transform rstrip(-aggressive)-keeps-values]
+  cell.py            _set_repeated: `repeated < 2` -> `repeated < 1`                           [70: xml-* 'cell repeat attribute 1']
 """
 from __future__ import annotations
 
@@ -71,6 +88,12 @@ ROWSPAN = TABLE_NS + "number-rows-spanned"
 MAXFAIL = int(os.environ.get("B_TABLES_MAXFAIL", "5"))
 _REPORTED: dict = {}
 _CURRENT = [None]       # target of the contract being evaluated (the cap is per contract and label)
+
+
+def _new_pass(con):
+    """a new enumeration of a contract starts: its failure caps start again"""
+    for k in [k for k in _REPORTED if k[0] == con.target]:
+        del _REPORTED[k]
 
 
 def _report(res, label, detail):
@@ -966,6 +989,7 @@ L2_INITS = ["empty", "new-2x2", "x-rowrun", "x-ragged", "x-cellruns"]
 
 
 def _gen_h1(con, sigcase, count, seed):
+    _new_pass(con)
     thorough = count > 200
     inits = list(QUICK_INITS)
     if thorough:
@@ -979,6 +1003,7 @@ def _gen_h1(con, sigcase, count, seed):
 
 
 def _gen_h2(con, sigcase, count, seed):
+    _new_pass(con)
     thorough = count > 200
     rnd = random.Random(seed)
     for init in L2_INITS:
@@ -988,14 +1013,14 @@ def _gen_h2(con, sigcase, count, seed):
                 yield {"init": init, "history": (a, b), "reads": True}
     if thorough:
         inits = QUICK_INITS + [f"rnd-{seed * 1000 + i}" for i in range(30)]
-        for init in inits:
+        for init in inits[:len(QUICK_INITS) + 8]:
             if init in L2_INITS:
                 continue
             for a in REDUCED:
                 for b in REDUCED:
                     yield {"init": init, "history": (a, b), "reads": True}
         alpha = full_alphabet()
-        for _ in range(count * 3):
+        for _ in range(count):
             h = tuple(rnd.choice(alpha) for _ in range(3))
             init = rnd.choice(inits)
             reads = rnd.random() < 0.5
@@ -1055,13 +1080,18 @@ contract(
     ensures=_history_clauses(),
     gen=_gen_h1, call_native=_call_history,
     bounded=dict(
-        scope="every single operation of the full " + _ALPHA_TXT + " x coordinates {0,1,2,last,edge,edge+2} on each "
-              "axis ({0,1,last,edge+2} on the 7x4 sheet in quick) x repeat counts 1..3 (1..2 for inserted cells) x row contents {no cell, 1 cell, runs (2,1)} on 10 initial tables: empty, "
-              "Table(2,2), Table(3,1), 5 raw-XML tables with row runs x cell runs x column runs of repeats 1..3 (one "
-              "ragged), simple_table.ods Example1 (7x4) and Example3 re-parsed from their serialisation; thorough: plus "
-              "30 random raw-XML tables (<= 3 row runs x <= 3 cell runs, repeats 1..3); after the step every read "
-              "(size, each value incl. one beyond each edge, rows, columns, an area, matrix, column styles) is "
-              "compared with the grid, a fresh parse, the raw-lxml expansion, and the XML structure rules",
+        scope="the empty history and every single operation of the full alphabet (744 calls: " + _ALPHA_TXT + ") with "
+              "coordinates {0, 1, 2, last, edge, edge+2} on each axis, repeat counts 1..3 on set cells / rows / columns "
+              "and 1..2 on inserted cells, row contents {no cell, one cell, cell runs (2,1)}, value blocks {1x1, 2x2, "
+              "1x3 with a hole, 3 lines with an empty one} at 6 corners, Row.set_values starts {0, 1, edge, edge+2}, "
+              "live repeats {1, 3}; on 10 initial tables: empty, Table(2,2), Table(3,1), 5 raw-XML tables with row runs "
+              "x cell runs x column runs of repeats 1..3 (one ragged, one without any run), simple_table.ods Example1 "
+              "(7x4; quick: coordinates {0, 1, last, edge+2}, 404 calls) and Example3 (2x2, text / float / date), both "
+              "re-parsed from their serialisation; thorough: plus 30 random raw-XML tables (<= 3 row runs x <= 3 cell "
+              "runs, repeats 1..3, values None / int / str).  After the step: size, every value incl. one beyond each "
+              "edge, every row, row width, every column, an area, the matrix and the column styles are compared with "
+              "the reference grid (C01), with a fresh parse and with the raw-lxml expansion (C02), and the XML structure "
+              "rules are read with lxml (C07)",
         reason=_H_REASON),
 )
 
@@ -1074,8 +1104,8 @@ contract(
         scope="all 729 ordered pairs of a reduced alphabet of 27 operations on 5 initial tables (empty, Table(2,2), 3 "
               "raw-XML run-length tables, one ragged), each once checked only at the end (no read in "
               "between) and once with cache-populating reads (get_row, get_cell, traverse, get_column) and all checks "
-              "after every step; thorough: plus the pairs on the other initial tables and 30 random raw-XML tables, and "
-              "24000 sampled histories of length 3 over the full alphabet with their prefixes",
+              "after every step; thorough: plus the pairs (with reads) on the 5 other initial tables and 8 random raw-XML "
+              "tables, and 8000 sampled histories of length 3 over the full alphabet on 40 tables, with their prefixes",
         reason=_H_REASON),
 )
 
@@ -1094,6 +1124,7 @@ def table_name_rule(s):
 
 
 def _gen_table_names(con, sigcase, count, seed):
+    _new_pass(con)
     n = 3 if count <= 200 else 4
     for k in range(0, n + 1):
         for tup in itertools.product(TABLE_NAME_ALPHABET, repeat=k):
@@ -1160,6 +1191,7 @@ def range_name_rule(s):
 
 
 def _gen_range_names(con, sigcase, count, seed):
+    _new_pass(con)
     n = 4 if count <= 200 else 5
     for k in range(0, n + 1):
         for tup in itertools.product(RANGE_NAME_ALPHABET, repeat=k):
@@ -1541,10 +1573,12 @@ def _check_outside(res, getter, init, history):
 
 
 def _gen_getters(con, sigcase, count, seed):
+    _new_pass(con)
     thorough = count > 200
     keys = reached_keys()
     if thorough:
-        keys = reached_keys(QUICK_INITS + [f"rnd-{seed * 1000 + i}" for i in range(20)], REACH_OPS + [(o,) for o in REDUCED])
+        keys = reached_keys(QUICK_INITS + [f"rnd-{seed * 1000 + i}" for i in range(10)],
+                            REACH_OPS + [(o,) for o in REDUCED[::3]])
     for init, h in keys:
         for gt in GETTERS:
             yield {"init": init, "history": h, "getter": gt}
@@ -1580,7 +1614,7 @@ contract(
               "C01/C02/C07 checks); each returned object mutated with every listed setter of its class (Cell: set_value, "
               "clear; Row: set_value, append_cell, clear; Column: style); reads one and three positions outside the "
               "populated area for get_cell, get_value, get_row, get_column, get_column_cells, Row.get_cell; thorough: "
-              "10 + 20 random initial tables x 38 operations",
+              "10 + 10 random initial tables x 20 operations",
         reason="nested generator loops over run-length maps; DESIGN C08 names this bounded stand-in"),
 )
 
@@ -1756,10 +1790,12 @@ def _call_clone(con, fn, argvals, labels):
 
 
 def _gen_clone(con, sigcase, count, seed):
+    _new_pass(con)
     thorough = count > 200
     keys = reached_keys()
     if thorough:
-        keys = reached_keys(QUICK_INITS + [f"rnd-{seed * 1000 + i}" for i in range(20)], REACH_OPS + [(o,) for o in REDUCED])
+        keys = reached_keys(QUICK_INITS + [f"rnd-{seed * 1000 + i}" for i in range(10)],
+                            REACH_OPS + [(o,) for o in REDUCED[::3]])
     for init, h in keys:
         for what in ("Table.clone", "Row.clone", "Cell.clone", "Column.clone"):
             yield {"init": init, "history": h, "what": what}
@@ -1778,7 +1814,7 @@ contract(
               "their own checks): serialisation, position maps, coordinates and answers equal at birth; then each of "
               "10 table operations / 8 row edits / 4 cell edits / 2 column edits applied to the clone and (on a new "
               "pair) to the original leaves the other one's serialisation, maps and answers unchanged; the table clone "
-              "also obeys the reference grid under one further operation; thorough: 30 initial tables x 38 operations",
+              "also obeys the reference grid under one further operation; thorough: 10 + 10 random initial tables x 20 operations",
         reason="independence for all later histories follows from separation of the reachable heaps (DESIGN C10); this "
                "is the bounded stand-in over one further operation"),
 )
@@ -1816,10 +1852,12 @@ T_SHAPES = {
     "s-rect": ([(None, 4)], [(1, [(1, 2), (None, 2)]), (2, [(None, 1), (5, 1), (None, 2)]), (1, [(None, 4)])]),
     # a zero and an empty string at the right end
     "s-zero": ([(None, 3)], [(1, [(1, 1), (0, 1), ("", 1)])]),
+    # three column runs, only the first column populated
+    "s-cols": ([("ca", 2), ("cb", 1), (None, 2)], [(1, [(1, 1), (None, 4)]), (1, [(None, 5)])]),
 }
 XML_SHAPES.update(T_SHAPES)
 T_INITS = ["empty", "new-2x2", "x-rowrun", "x-ragged", "x-cellruns", "x-plain", "s-trailing", "s-lastrun", "s-narrow",
-           "s-rect", "s-zero", "s-span", "ods-Example3"]
+           "s-rect", "s-zero", "s-cols", "s-span", "ods-Example3"]
 T_PREFIXES = [None, "transpose", "rstrip", "optimize_width", "set_span"]
 T_LAWS = ["transpose", "rstrip", "rstrip-aggressive", "optimize_width", "span", "span-overlap"]
 
@@ -1927,6 +1965,10 @@ def _law_strip(res, t, where, method, aggressive):
     # nothing but trailing empties was removed, nothing was added or moved
     if p1.H > p0.H or p1.W > p0.W:
         _report(res, f"ensures:{name}-only-empty{cls}", f"{where}: the table grew from {(p0.W, p0.H)} to {(p1.W, p1.H)}")
+        return
+    if p1.cols != p0.cols[:p1.W]:
+        _report(res, f"ensures:{name}-only-empty{cls}", f"{where}: the remaining column declarations changed from "
+                f"{p0.cols[:p1.W]!r} to {p1.cols!r}")
         return
     for y, row in enumerate(v0):
         new = v1[y] if y < len(v1) else []
@@ -2077,6 +2119,7 @@ def _call_transform(con, fn, argvals, labels):
 
 
 def _gen_transform(con, sigcase, count, seed):
+    _new_pass(con)
     thorough = count > 200
     inits = list(T_INITS)
     if thorough:
@@ -2114,10 +2157,10 @@ contract(
     bounded=dict(
         scope="laws {transpose once = matrix transposed and twice = identity (size and values); rstrip, "
               "rstrip(aggressive), optimize_width: non-empty values keep their coordinates, only empty trailing cells / "
-              "rows removed (styled empties kept by the plain rstrip), idempotent; set_span(area) for all 100 areas "
+              "rows removed (styled empties kept by the plain rstrip, remaining column declarations unchanged), idempotent; set_span(area) for all 100 areas "
               "inside 4x4: refused iff a cell of the area is already spanned or the area is one cell, else covered cells = "
               "area minus origin, origin carries the two span counts, values unchanged, del_span restores every cell} on "
-              "13 tables (empty, Table(2,2), 9 raw-XML tables: run-length encoded, ragged, narrower than their columns, "
+              "14 tables (empty, Table(2,2), 10 raw-XML tables: run-length encoded, ragged, narrower than their columns, "
               "trailing empty / styled cells and rows, values None / int / 0 / '' / styled empty, a repeated non-empty "
               "last row, one with an existing 2x2 span, simple_table.ods Example3), each law also after one of {transpose, "
               "rstrip, optimize_width, set_span((0,0,1,1))} (compositions of length 2; 36 areas then); the result is "
@@ -2204,7 +2247,7 @@ DETAIL = repr(t.get_values())   # expected [[2, None], [1, 2]]
         property="C01", properties=["C01"],
         target="odfdo.table:Table.delete_column",
         clause="ensures:grid-delete_column-ragged",
-        clauses=["ensures:grid-delete_column-ragged", "ensures:fresh-delete_column-ragged"],
+        clauses=["ensures:grid-delete_column-ragged"],
         history="Table('t'); set_values([[1, 2, 3], [7]]); delete_column(0)",
         what_fails="delete_column(x) does not shift the rows that are at least two cells narrower than the table although "
                    "they have a cell at x (`row.width >= width` tests against the new table width instead of x): "
@@ -2335,7 +2378,7 @@ DETAIL = repr((raised, size0, t2.size))
         property="C17", properties=["C17"],
         target="odfdo.table:Table.optimize_width",
         clause="ensures:optimize_width-keeps-values",
-        clauses=["ensures:optimize_width-keeps-values", "ensures:optimize_width-only-empty"],
+        clauses=["ensures:optimize_width-keeps-values"],
         history="Table('t'); append_row(row [3] repeated 3 times); optimize_width()",
         what_fails="optimize_width removes non-empty rows: `_optimize_width_trim_rows` drops the repeat count of the last "
                    "row whether or not it is empty, so a table ending with a repeated data row [[3], [3], [3]] becomes [[3]]",
